@@ -10,7 +10,7 @@ from rv.props import common as C
 from rv import oracles as O, gen
 
 LEVEL = "exploration"
-RULE = ("bounded-exhaustive: every sum vector of 1..5 bins over 0..G (G = 4 quick, 6 thorough; sharded) x {list, tuple, ndarray} x every permutation class (as given, sorted, reversed) x "
+RULE = ("bounded-exhaustive: every sum vector of 1..5 bins over 0..G (G = 4 quick, 6 thorough; sharded) x {list, tuple, int64 / float64 / unsigned ndarray} x every permutation class (as given, sorted, reversed) x "
         "5 sum-based objectives (k from 1 to bins+2) + weighted objective; random vectors up to 2^49 with up to 9 bins, and lists/tuples of Python ints around 2^53..2^70 compared exactly; in-place histories (one list / ndarray updated in place between evaluations by the same objective instance); the sorted fast path is compared on truly sorted input; "
         "in situ: the value contract runs on every numeric evaluation made by dp / complete greedy on generated instances; non-trivial = >= 2 distinct sums given unsorted; "
         "distinct on (objective, k/weights, container type, vector, flag)")
@@ -34,6 +34,8 @@ def container(vec, kind):
         return list(vec)
     if kind == "tuple":
         return tuple(vec)
+    if kind == "ndarray_u":
+        return np.array(vec, dtype=np.uint32 if max(vec) < 2 ** 28 else np.uint64)      # unsigned dtype: a natural container for non-negative sums
     if kind == "ndarray_f":
         return np.array(vec, dtype=float)          # what prtpy's own bins-arrays are made of
     return np.array(vec, dtype=np.int64 if all(isinstance(x, int) for x in vec) else float)
@@ -123,7 +125,7 @@ def judge_history(case, ctx):
              sample={"case": case})
 
 
-def cases_for(vec, rng, kinds=("list", "tuple", "ndarray", "ndarray_f")):
+def cases_for(vec, rng, kinds=("list", "tuple", "ndarray", "ndarray_f", "ndarray_u")):
     nb = len(vec)
     srt = sorted(vec)
     for name in NAMES:
